@@ -1,6 +1,6 @@
 """C10 - binned count tables: each counted read lands in exactly the bins containing it.
 
-Three levels, all exhaustive over their stated space, all against the real code:
+Four levels, all exhaustive over their stated space, all against the real code:
 
 arith   both copies of coordinate_to_bins / coordinate_to_sliding_bin_locations (bamToCountTable, utils.binning):
         EVERY point 0..N x bin size 1..B x increment 1..bin.
@@ -11,17 +11,39 @@ assign  bamToCountTable.assignReads on one in-memory read: every coordinate 0..L
 table   create_count_table(args, return_df=True) with -bin / -sliding / --keepOverBounds on BAM files synthesised
         under /dev/shm: two contigs of different length, one read (or one pair) for EVERY coordinate 0..len+2 of each
         contig, two samples; x every (b, s<=b) x keepOverBounds x bin tag {DS, XP} x weights {unpaired, pairs
-        halved, pairs not divided} x bin tag implicit / listed among the joined features.
+        halved, pairs not divided} x bin tag implicit / listed among the joined features.  Every BAM additionally holds a
+        counted read without the DS tag, one without XP/ZS, a qc-failed and an unmapped read; unpaired reads alternate
+        strand.  On top of that product: EVERY option vector that differs from the default in at most 1 (quick) / 2
+        (thorough, first contig set) of the dimensions bin tag {DS, XP, reference_start, ZS string typed} x joined
+        feature list {chrom | chrom,<bin> | <bin>,chrom | chrom,DA | DA,<bin>,chrom | DA} x sample tags {SM | SM,LY | LY}
+        x -contig {none, each contig} x -head {none, 0, 3, half} x --noNames x --splitFeatures x -byValue x
+        --doNotDivideFragments x -sliding given explicitly although equal to the bin x result {returned DataFrame,
+        pickle written with -o, pickle with --bulk}; increments ABOVE the bin size (b+1, 2b); and a bin size longer than
+        every contig (the table is empty unless --keepOverBounds).
+        table2: two alignment files in one call whose headers disagree (lengths, an extra contig), both orders.
+split   split_double_BAM.main() (the third anchored file; it takes coordinate_to_bins(DS, b, b)[0] as THE bin of a pair):
+        one pair for every (cell, DS coordinate 0..len+2) on two contigs, one cell per genomic bin whose probability row
+        is 1 for exactly that bin and 0 elsewhere, every bin size 1..B.
+arith and assign also visit realistic magnitudes (bin sizes 7..1e6, coordinates around 2^24, 248956422 and 2^31-1).
 
 Oracle (from the property statement, no formula shared with the code): the defining set
 {[i*s, i*s+b) : i*s <= p < i*s+b} found by testing every candidate i; without sliding additionally the single bin
 k = p // b.  A window is "inside the contig" when 0 <= start and end <= contig length (the --keepOverBounds help:
 bins with start<0 or end > chromosome length go over the bounds).  The whole table is compared entry by entry,
-which implies the total and the no-double-count clauses.
+which implies the total and the no-double-count clauses.  -head: the table must be the table of SOME prefix of the
+reads in file order (how many reads "the first N" are is not C10's business).  Index level names, when set, must not
+lie: start/end on the last two levels, a feature level named after its own tag.  split: a pair whose own bin
+[k*b,(k+1)*b), k = DS // b, has probability 1 must be written to splitted_A, probability 0 to splitted_B.
+Increments above the bin size are outside the property's quantifier (s <= b) but inside its wording: there a refusal
+(exception) is accepted, a produced table / window list is still compared.
 """
 import collections
+import contextlib
+import io
+import itertools
 import os
 import shutil
+import sys
 import tempfile
 
 ID = 'C10'
@@ -32,36 +54,84 @@ RULE = ('arith: exhaustive product point x bin size x increment<=bin on both cop
         'assignReads, non-trivial when at least one containing window leaves the contig or the coordinate is on a '
         'boundary; table: one BAM per (contig lengths, pairing) holding every coordinate, x (b,s) x keepOverBounds x '
         'bin tag x fragment division x feature list through create_count_table, non-trivial when some window is over '
-        'the contig bounds and the expected table has >= 2 bins; states = distinct cases')
+        'the contig bounds and the expected table has >= 2 bins; on top every option vector differing from the default in '
+        '<= 1 (quick) / <= 2 (thorough, first contig set) of 11 option dimensions; arith/assign/table also with increments '
+        'above the bin (refusal accepted); arith-large / assign-large: boundary clusters at realistic magnitudes; '
+        'split: split_double_BAM.main() with one cell per genomic bin, non-trivial when the contig has >= 2 bins; '
+        'states = distinct cases')
 ASSUMPTIONS = [
-    'bin size >= 1, sliding increment 1 <= s <= b (the quantifier of the property), coordinates >= 0',
+    'bin size >= 1, sliding increment 1 <= s <= b (the quantifier of the property), coordinates >= 0; increments b < s <= 2b '
+    'are explored too but there an exception (refusal) is accepted',
     'reads used are plain counted reads (mapped, not qc-failed, default filters); their weights are the documented '
-    '1 per unpaired read, 0.5 per mate of a pair with both mates mapped, 1 per read with --doNotDivideFragments',
+    '1 per unpaired read, 0.5 per mate of a pair with both mates mapped, 1 per read with --doNotDivideFragments, the value '
+    'of the tag with -byValue (only used with unpaired reads); a qc-failed and an unmapped read are present and never counted',
     'both mates of a pair carry the same bin-tag value (as the taggers write DS)',
     'a window is inside the contig iff start >= 0 and end <= contig length (--keepOverBounds help text)',
+    'a read that lacks the bin tag has no coordinate and lands in no bin',
+    'feature values contain no feature delimiter, so --splitFeatures must not change the table; --splitFeatures together '
+    'with -byValue (refused by the tool) and feature lists consisting of the bin tag only are not generated',
+    '-head: only "the table is that of a prefix of the reads in file order" is demanded',
+    'split_double_BAM: probabilities are 0 or 1 (the random draw is then immaterial; numpy is seeded anyway), -mapq 0, no '
+    'duplicates, no --interpolation; a pair whose bin row and cell column exist is written to exactly one of the two outputs',
 ]
 
 COPIES = ('bamToCountTable', 'utils.binning')
 ASSIGN_TAGS = ('DS', 'XP', 'reference_start')
 TABLE_TAGS = ('DS', 'XP')
 
+# option dimensions of the table level; the first value of each is the default
+DIMS = (
+    ('tag', ('DS', 'XP', 'reference_start', 'ZS')),
+    ('feats', ('chrom', 'chrom,@', '@,chrom', 'chrom,DA', 'DA,@,chrom', 'DA')),       # @ = the bin tag
+    ('samples', ('SM', 'SM,LY', 'LY')),
+    ('contig', (None, 'chr1', 'chr2')),
+    ('head', (None, 0, 3, 'half')),
+    ('noNames', (False, True)),
+    ('split', (False, True)),
+    ('byValue', (None, 'XV')),
+    ('dnd', (False, True)),
+    ('slide', ('implicit', 'explicit')),
+    ('out', ('df', 'pickle', 'pickle+bulk')),
+)
+DEFAULT_OPT = {k: v[0] for k, v in DIMS}
+LARGE_ANCHORS = (2 ** 24, 248956422, 2 ** 31 - 1)
+LARGE_BINS = (7, 30, 1000, 50000, 100000, 1000000)
+
 
 def bounds(tier):
+    dims = {k: [str(x) for x in v] for k, v in DIMS}
+    large = {'anchors': list(LARGE_ANCHORS), 'bins': list(LARGE_BINS),
+             'increments': 'b, b/2, b/4, 3b/10, b-1, 7, 2b, b+1 (those with b/s <= 200)',
+             'points': 'anchor+d, (anchor//s)*s+d, (anchor//b)*b+d, d in -2..2'}
     if tier == 'quick':
-        return {'arith': {'N': 120, 'B': 24, 'increment': '1..bin', 'copies': list(COPIES)},
-                'assign': {'contig_lengths': [12, 13], 'coordinates': '0..L+2', 'B': 12, 'increment': '1..bin',
+        return {'arith': {'N': 120, 'B': 24, 'increment': '1..2*bin (above bin: refusal accepted)', 'copies': list(COPIES)},
+                'arith-large': large,
+                'assign': {'contig_lengths': [12, 13], 'coordinates': '0..L+2', 'B': 12, 'increment': '1..bin, bin+1, 2*bin',
                            'keepOverBounds': [False, True], 'bin_tags': list(ASSIGN_TAGS), 'weights': ['single', 'mate']},
+                'assign-large': {'contig_length': 248956422, 'bins': [1000, 100000], 'increments': 'b, b/2, 3b/10'},
                 'table': {'contig_sets': [[12, 7]], 'coordinates': '0..len+2 on every contig', 'B': 8,
-                          'increment': '1..bin', 'keepOverBounds': [False, True], 'bin_tags': list(TABLE_TAGS),
+                          'bin_sizes': '1..B and longest contig + 1 (empty table unless keepOverBounds)',
+                          'increment': '1..bin, bin+1, 2*bin', 'keepOverBounds': [False, True], 'bin_tags': list(TABLE_TAGS),
                           'layouts': ['single', 'paired', 'paired+doNotDivideFragments'],
-                          'feature_lists': ['chrom', 'chrom,<binTag>']}}
-    return {'arith': {'N': 600, 'B': 60, 'increment': '1..bin', 'copies': list(COPIES)},
-            'assign': {'contig_lengths': [23, 24, 25], 'coordinates': '0..L+2', 'B': 24, 'increment': '1..bin',
+                          'feature_lists': ['chrom', 'chrom,<binTag>'],
+                          'option_dimensions': dims, 'option_vectors': {'[12, 7]': 'all with <= 1 dimension off default'},
+                          'extra_reads_per_contig': ['no DS tag', 'no XP/ZS tag', 'qcfail', 'unmapped']},
+                'split': {'contig_sets': [[23, 9]], 'B': 12, 'coordinates': '0..len+2', 'cells': 'one per genomic bin'}}
+    return {'arith': {'N': 600, 'B': 60, 'increment': '1..2*bin (above bin: refusal accepted)', 'copies': list(COPIES)},
+            'arith-large': large,
+            'assign': {'contig_lengths': [23, 24, 25], 'coordinates': '0..L+2', 'B': 24, 'increment': '1..bin, bin+1, 2*bin',
                        'keepOverBounds': [False, True], 'bin_tags': list(ASSIGN_TAGS), 'weights': ['single', 'mate']},
+            'assign-large': {'contig_length': 248956422, 'bins': [1000, 100000], 'increments': 'b, b/2, 3b/10'},
             'table': {'contig_sets': [[12, 7], [24, 13], [30, 9]], 'coordinates': '0..len+2 on every contig', 'B': 16,
-                      'increment': '1..bin', 'keepOverBounds': [False, True], 'bin_tags': list(TABLE_TAGS),
+                      'bin_sizes': '1..B and longest contig + 1 (empty table unless keepOverBounds)',
+                      'increment': '1..bin, bin+1, 2*bin', 'keepOverBounds': [False, True], 'bin_tags': list(TABLE_TAGS),
                       'layouts': ['single', 'paired', 'paired+doNotDivideFragments'],
-                      'feature_lists': ['chrom', 'chrom,<binTag>']}}
+                      'feature_lists': ['chrom', 'chrom,<binTag>'],
+                      'option_dimensions': dims,
+                      'option_vectors': {'[12, 7]': 'all with <= 2 dimensions off default',
+                                         'other sets': 'all with <= 1 dimension off default'},
+                      'extra_reads_per_contig': ['no DS tag', 'no XP/ZS tag', 'qcfail', 'unmapped']},
+            'split': {'contig_sets': [[23, 9], [40, 16]], 'B': 24, 'coordinates': '0..len+2', 'cells': 'one per genomic bin'}}
 
 
 def shards(tier):
@@ -70,22 +140,34 @@ def shards(tier):
     for copy in COPIES:
         for bs in range(1, b['arith']['B'] + 1):
             out.append(('arith', copy, bs, b['arith']['N']))
+        out.append(('arith-large', copy))
     for L in b['assign']['contig_lengths']:
         for bs in range(1, b['assign']['B'] + 1):
             out.append(('assign', L, bs))
-    for lens in b['table']['contig_sets']:
+    out.append(('assign-large',))
+    for n, lens in enumerate(b['table']['contig_sets']):
+        depth = 2 if (tier != 'quick' and n == 0) else 1
         for layout in ('single', 'paired'):
-            for bs in range(1, b['table']['B'] + 1):
-                out.append(('table', tuple(lens), layout, bs))
+            for bs in sorted(set(range(1, b['table']['B'] + 1)) | {max(lens) + 1}):   # + a bin longer than every contig
+                out.append(('table', tuple(lens), layout, bs, depth))
+    for lens in b['split']['contig_sets']:
+        for bs in range(1, b['split']['B'] + 1):
+            out.append(('split', tuple(lens), bs))
     return out
+
+
+def increments(b):
+    """1..b (the quantifier) and two increments above the bin size"""
+    return list(range(1, b + 1)) + sorted({b + 1, 2 * b})
 
 
 # ---------------------------------------------------------------------------------------------- oracle
 
 def windows_containing(p, b, s):
-    """The defining set {[i*s, i*s+b) : i*s <= p < i*s+b}, every candidate index tested directly."""
+    """The defining set {[i*s, i*s+b) : i*s <= p < i*s+b}, every candidate index tested directly.
+    (i*s <= p < i*s+b implies (p-b)/s < i <= p/s: the candidate range below is a superset of that.)"""
     out = []
-    for i in range(-(b // s) - 2, p // s + 3):
+    for i in range((p - b) // s - 2, p // s + 3):
         st = i * s
         if st <= p < st + b:
             out.append((st, st + b))
@@ -100,6 +182,8 @@ def inside(win, length):
 
 
 def mode(b, s):
+    if s > b:
+        return 'increment-above-bin'
     return 'nosliding' if s == b else 'sliding'
 
 
@@ -122,28 +206,46 @@ def check_arith(copy, p, b, s, fns=None):
     try:
         got = [(int(x), int(y)) for x, y in f_bins(p, b, s)]
     except Exception as ex:
-        out.append((f'{copy}.coordinate_to_bins:exception:{type(ex).__name__}', repr(ex)))
+        if s <= b:
+            out.append((f'{copy}.coordinate_to_bins:exception:{type(ex).__name__}', repr(ex)))
         got = None
     if got is not None:
         site = f'{copy}.coordinate_to_bins:{md}'
         if any(not (x <= p < y) for x, y in got):
-            out.append((f'{site}:window-not-containing-coordinate', {'got': got, 'expected': exp}))
+            out.append((f'{site}:window-not-containing-coordinate', {'got': got[:6], 'expected': exp[:6]}))
         if any(w not in got for w in exp):
-            out.append((f'{site}:containing-window-missing', {'got': got, 'expected': exp}))
+            out.append((f'{site}:containing-window-missing', {'got': got[:6], 'expected': exp[:6]}))
         if len(set(got)) != len(got):
-            out.append((f'{site}:window-listed-twice', {'got': got, 'expected': exp}))
+            out.append((f'{site}:window-listed-twice', {'got': got[:6], 'expected': exp[:6]}))
         if any((y - x) != b or x % s for x, y in got):
-            out.append((f'{site}:malformed-window', {'got': got, 'expected': exp}))
+            out.append((f'{site}:malformed-window', {'got': got[:6], 'expected': exp[:6]}))
+    if not exp:
+        return out, exp            # only with s > b: no overlapping window, "first/last overlapping window" undefined
     try:
         st, en, sid, eid = (int(v) for v in f_loc(p, b, s))
         site = f'{copy}.coordinate_to_sliding_bin_locations:{md}'
         if (st, sid) != (exp[0][0], exp[0][0] // s):
-            out.append((f'{site}:first-overlapping-window-wrong', {'got': [st, en, sid, eid], 'expected_windows': exp}))
+            out.append((f'{site}:first-overlapping-window-wrong', {'got': [st, en, sid, eid], 'expected_windows': exp[:6]}))
         if (en, eid) != (exp[-1][1], exp[-1][0] // s):
-            out.append((f'{site}:last-overlapping-window-wrong', {'got': [st, en, sid, eid], 'expected_windows': exp}))
+            out.append((f'{site}:last-overlapping-window-wrong', {'got': [st, en, sid, eid], 'expected_windows': exp[-6:]}))
     except Exception as ex:
-        out.append((f'{copy}.coordinate_to_sliding_bin_locations:exception:{type(ex).__name__}', repr(ex)))
+        if s <= b:
+            out.append((f'{copy}.coordinate_to_sliding_bin_locations:exception:{type(ex).__name__}', repr(ex)))
     return out, exp
+
+
+def large_increments(b):
+    cand = [b, b // 2, b // 4, (3 * b) // 10, b - 1, 7, 2 * b, b + 1]
+    return sorted({s for s in cand if s >= 1 and b // s <= 200})
+
+
+def large_points(b, s):
+    pts = set()
+    for a in LARGE_ANCHORS:
+        for base in (a, (a // s) * s, (a // b) * b):
+            for d in range(-2, 3):
+                pts.add(base + d)
+    return sorted(pts)
 
 
 # ---------------------------------------------------------------------------------------------- assign
@@ -178,13 +280,16 @@ def check_assign(L, p, b, s, keep, tag, kind):
     try:
         T.assignReads(read, ct, args, True, ['chrom', tag], ['SM'])
     except Exception as ex:
+        if s > b:
+            return [], wins, exp
         return [(f'assignReads:exception:{type(ex).__name__}', repr(ex))], wins, exp
     got = G.counter_to_dict(ct)
-    return _diff('assignReads', got, exp, b, s, keep, {'chr2': L}), wins, exp
+    return _diff('assignReads', got, exp, b, s, keep, lambda key: L if key[0] == 'chr2' else -1), wins, exp
 
 
-def _diff(site, got, exp, b, s, keep, lengths):
-    """Classify every differing table entry; one (signature, detail) per clause."""
+def _diff(site, got, exp, b, s, keep, length_of):
+    """Classify every differing table entry; one (signature, detail) per clause.
+    length_of(key) -> length of the contig the key belongs to, -1 if unknown contig, None if the key names no contig."""
     md = mode(b, s)
     found = {}
     for k in sorted(set(got) | set(exp), key=repr):
@@ -197,9 +302,10 @@ def _diff(site, got, exp, b, s, keep, lengths):
             clause = 'malformed-table-key'
         else:
             st, en = key[-2], key[-1]
+            ln = length_of(key)
             if (en - st) != b or st % s:
                 clause = 'malformed-window'
-            elif not keep and g > 0 and not inside((st, en), lengths.get(key[0], -1)):
+            elif not keep and g > 0 and ln is not None and not inside((st, en), ln):
                 clause = 'window-outside-contig-counted'
             elif g > e:
                 clause = 'window-overcounted'       # a read counted in a window not containing it / twice
@@ -218,84 +324,287 @@ def _diff(site, got, exp, b, s, keep, lengths):
 
 # ---------------------------------------------------------------------------------------------- table
 
-def _table_reads(G, hdr, lens, layout):
-    """One read (single) or one pair (paired) for EVERY coordinate 0..len+2 of every contig.
-    Returns reads and the list of (contig, coordinate under DS, coordinate under XP, sample)."""
-    reads, truth = [], []
-    for ci, L in enumerate(lens):
-        name = f'chr{ci + 1}'
-        top = L + 2
-        for p in range(0, top + 1):
-            sm = 'A' if p % 2 == 0 else 'B'
-            xp = top - p
-            pos = min(p, L - 4)
-            tags = [('SM', sm), ('DS', p), ('XP', xp)]
-            if layout == 'single':
-                reads.append(G.mk_read(hdr, f'{name}_{p}', ci, pos, cigar='4M', tags=tags))
-            else:
-                reads.append(G.mk_read(hdr, f'{name}_{p}', ci, pos, cigar='4M', tags=tags, paired=True, read2=False))
-                reads.append(G.mk_read(hdr, f'{name}_{p}', ci, pos, cigar='4M', tags=tags, paired=True, read2=True,
-                                       reverse=True))
-            truth.append((name, {'DS': p, 'XP': xp}, sm))
-    return reads, truth
+def option_vectors(depth, layout, b, s):
+    """Every option vector (as the dict of its non-default dimensions) with <= depth dimensions off the default, plus the
+    original product bin tag {DS, XP} x fragment division x bin tag listed among the features; without the combinations
+    outside the domain (see ASSUMPTIONS) and without those that would repeat another vector."""
+    seen, out = set(), []
+
+    def add(ch):
+        if ch.get('split') and ch.get('byValue'):
+            return                      # refused by the tool
+        if ch.get('byValue') and layout != 'single':
+            return                      # the weight of a mate under -byValue is not documented
+        if ch.get('dnd') and layout == 'single':
+            return                      # no pairs: same vector as without
+        if ch.get('slide') == 'explicit' and s != b:
+            return                      # -sliding is always given explicitly when it differs from the bin
+        key = tuple(sorted(ch.items(), key=repr))
+        if key not in seen:
+            seen.add(key)
+            out.append(ch)
+
+    for tag in TABLE_TAGS:
+        for dnd in (False, True):
+            for feats in ('chrom', 'chrom,@'):
+                add({k: v for k, v in (('tag', tag), ('dnd', dnd), ('feats', feats)) if v != DEFAULT_OPT[k]})
+    for n in range(0, depth + 1):
+        for dims in itertools.combinations(DIMS, n):
+            for vals in itertools.product(*[d[1][1:] for d in dims]):
+                add({d[0]: v for d, v in zip(dims, vals)})
+    return out
 
 
 def _build_bam(lens, layout, tmpdir):
     from gen import c10_counttable as G
+    from gen import c10_rich as R
     hdr = G.header([(f'chr{i + 1}', L) for i, L in enumerate(lens)])
-    reads, truth = _table_reads(G, hdr, lens, layout)
+    reads, truth = R.rich_reads(hdr, lens, layout)
     path = os.path.join(tmpdir, f'c10_{"_".join(map(str, lens))}_{layout}.bam')
-    G.write_bam(path, hdr, reads)
+    truth = R.write_bam_ordered(path, hdr, reads, truth)
     return path, truth
 
 
-def check_table(path, truth, lens, layout, b, s, keep, tag, dnd, explicit, more=()):
-    """more: further (path, truth, lens) files counted in the same call, each read judged against the contig lengths of ITS
-    OWN file (two alignment files may give a same-named contig different lengths)"""
-    from gen import c10_counttable as G
-    lengths = {f'chr{i + 1}': L for i, L in enumerate(lens)}
-    feats = f'chrom,{tag}' if explicit else 'chrom'
-    files = [(path, truth, lens)] + list(more)
-    # -sliding is only given when it differs from the bin size: "If nothing is supplied this value equals the bin size"
-    args = G.default_args(alignmentfiles=[f[0] for f in files], bin=b, sliding=(None if s == b else s), keepOverBounds=keep,
-                          binTag=tag, joinedFeatureTags=feats, doNotDivideFragments=dnd)
-    if layout == 'single':
-        per_coord = 1.0                     # one unpaired read
+def _contributions(rec, lengths, o, b, s, keep):
+    """[(table key, weight)] of one read, and the number of its containing windows that leave the contig"""
+    if not rec['counted']:
+        return [], 0
+    c = rec['coords'][o['tag']]
+    if c is None:
+        return [], 0                    # no coordinate: in no bin
+    if o['byValue']:
+        w = float(rec[o['byValue']])
+    elif rec['paired'] and not o['dnd']:
+        w = 0.5
     else:
-        per_coord = 2.0 if dnd else 1.0     # two mates: 0.5 + 0.5, or 1 + 1 when fragments are not divided
-    exp = {}
-    over = 0
+        w = 1.0
+    feats = [t for t in o['feats'].replace('@', o['tag']).split(',') if t != o['tag'] and t != o['byValue']]
+    key = tuple(rec['contig'] if t == 'chrom' else str(rec[t]) for t in feats)
+    sample = ('<bulk>',) if o['out'].endswith('bulk') else tuple(rec[t] for t in o['samples'].split(','))
+    out, over = [], 0
+    for win in windows_containing(c, b, s):
+        if not inside(win, lengths[rec['contig']]):
+            over += 1
+            if not keep:
+                continue
+        out.append(((sample, key + win), w))
+    return out, over
+
+
+def _run_table(G, args, o, tmpdir):
+    import pandas as pd
+    from singlecellmultiomics.bamProcessing import bamToCountTable as T
+    if o['out'] == 'df':
+        return G.run_table(args)
+    args.o = os.path.join(tmpdir, 'out.pickle')
+    args.bulk = o['out'].endswith('bulk')
+    if os.path.exists(args.o):
+        os.remove(args.o)
+    with G.quiet():
+        T.create_count_table(args, return_df=False)
+    return pd.read_pickle(args.o)
+
+
+def _human_names(tag):
+    from singlecellmultiomics.bamProcessing import bamToCountTable as T
+    names = {tag}
+    try:
+        if tag in T.TagDefinitions:
+            names.add(T.TagDefinitions[tag].humanName)
+    except Exception:
+        pass
+    return names
+
+
+def _name_clauses(df, o):
+    """index level names, when set, must not lie"""
+    if o['noNames'] or len(df) == 0:
+        return []
+    names = list(df.index.names)
+    feats = [t for t in o['feats'].replace('@', o['tag']).split(',') if t != o['tag'] and t != o['byValue']]
+    nl = len(feats) + 2
+    if len(names) != nl:
+        return []                       # reported as malformed-table-key by the entry comparison
+    bad = []
+    for i, nm in enumerate(names):
+        if nm is None:
+            continue
+        want = {'start'} if i == nl - 2 else {'end'} if i == nl - 1 else _human_names(feats[i])
+        if nm not in want:
+            bad.append({'level': i, 'name': nm, 'acceptable': sorted(want)})
+    return bad
+
+
+def check_table(path, truth, lens, layout, b, s, keep, opt=None, more=(), tmpdir=None):
+    """opt: the non-default option dimensions.  more: further (path, truth, lens) files counted in the same call, each read
+    judged against the contig lengths of ITS OWN file (two alignment files may give a same-named contig different lengths).
+    Returns (violations, expected table, windows over the bounds, outcome label)."""
+    from gen import c10_counttable as G
+    o = dict(DEFAULT_OPT)
+    o.update(opt or {})
+    files = [(path, truth, lens)] + list(more)
+    tag = o['tag']
+    over_kw = {}
+    if o['contig'] is not None:
+        over_kw['contig'] = o['contig']
+    n_reads = sum(1 for f in files for r in f[1] if o['contig'] in (None, r['contig']))
+    head = o['head']
+    if head == 'half':
+        head = n_reads // 2
+    if head is not None:
+        over_kw['head'] = head
+    if o['byValue']:
+        over_kw['byValue'] = o['byValue']
+    # -sliding is only given when it differs from the bin size ("If nothing is supplied this value equals the bin size"),
+    # or, as its own option letter, explicitly although equal
+    args = G.default_args(alignmentfiles=[f[0] for f in files], bin=b,
+                          sliding=(None if (s == b and o['slide'] == 'implicit') else s), keepOverBounds=keep,
+                          binTag=tag, joinedFeatureTags=o['feats'].replace('@', tag), sampleTags=o['samples'],
+                          doNotDivideFragments=o['dnd'], noNames=o['noNames'], splitFeatures=o['split'], **over_kw)
+    exp, over, prefixes = {}, 0, []
     for _p, truth_f, lens_f in files:
         lengths_f = {f'chr{i + 1}': L for i, L in enumerate(lens_f)}
-        for contig, coords, sm in truth_f:
-            for win in windows_containing(coords[tag], b, s):
-                if inside(win, lengths_f[contig]):
-                    pass
-                else:
-                    over += 1
-                    if not keep:
-                        continue
-                k = ((sm,), (contig, win[0], win[1]))
-                exp[k] = exp.get(k, 0.0) + per_coord
-    if more:
-        lengths = {c: max(dict((f'chr{i + 1}', L) for i, L in enumerate(f[2])).get(c, 0) for f in files)
-                   for c in {f'chr{i + 1}' for f in files for i in range(len(f[2]))}}
+        for rec in truth_f:
+            if o['contig'] is not None and rec['contig'] != o['contig']:
+                continue
+            contribs, ov = _contributions(rec, lengths_f, o, b, s, keep)
+            over += ov
+            for k, w in contribs:
+                exp[k] = exp.get(k, 0.0) + w
+            if head is not None:
+                prefixes.append(dict(exp))
+    all_lengths = {}
+    for f in files:
+        for i, L in enumerate(f[2]):
+            all_lengths[f'chr{i + 1}'] = max(all_lengths.get(f'chr{i + 1}', 0), L)
+    feats = [t for t in o['feats'].replace('@', tag).split(',') if t != tag and t != o['byValue']]
+    ci = feats.index('chrom') if 'chrom' in feats else None
+
+    def length_of(key):
+        if ci is None:
+            return None
+        return all_lengths.get(key[ci], -1) if len(key) == len(feats) + 2 else -1
+
+    changed = '+'.join(sorted(opt)) if opt else ''
+    site = 'create_count_table' + (f':{changed}' if changed else '')
+    own_tmp = None
+    if tmpdir is None and o['out'] != 'df':
+        own_tmp = tmpdir = tempfile.mkdtemp(prefix='c10o_', dir='/dev/shm')
     try:
-        df = G.run_table(args)
-        got = G.table_to_dict(df)
-    except Exception as ex:
-        return [(f'create_count_table:exception:{type(ex).__name__}', repr(ex))], exp, over
-    return _diff('create_count_table', got, exp, b, s, keep, lengths), exp, over
+        try:
+            df = _run_table(G, args, o, tmpdir)
+            got = {k: v for k, v in G.table_to_dict(df).items() if v != 0.0}
+        except Exception as ex:
+            if s > b:
+                return [], exp, over, 'refused'
+            # one signature whatever the option vector (it is kept in the case and in the detail)
+            return [(f'create_count_table:exception:{type(ex).__name__}',
+                     {'exception': repr(ex), 'options_off_default': changed or 'none'})], exp, over, 'exception'
+    finally:
+        if own_tmp:
+            shutil.rmtree(own_tmp, ignore_errors=True)
+    viols = []
+    if o['out'].endswith('bulk'):
+        # "sum the counts of all sampleTags into a single column"; how that column is called is left open
+        columns = sorted({k[0] for k in got}, key=repr)
+        if len(columns) > 1:
+            viols.append((f'{site}:{mode(b, s)}:bulk-table-has-several-columns', {'columns': [list(c) for c in columns[:4]]}))
+        merged = {}
+        for (_sample, key), v in got.items():
+            merged[(('<bulk>',), key)] = merged.get((('<bulk>',), key), 0.0) + v
+        got = merged
+    if head is None:
+        viols += _diff(site, got, exp, b, s, keep, length_of)
+        label = 'full'
+    else:
+        # "first N reads": the table of SOME prefix of the reads in file order (the empty prefix included)
+        match = [n for n, t in enumerate([{}] + prefixes) if t == got]
+        if match:
+            label = 'prefix' if len(got) < len(exp) or got != exp else 'prefix=all'
+        else:
+            label = 'no-prefix'
+            d = _diff(site, got, exp, b, s, keep, length_of)
+            worse = [(sg, dd) for sg, dd in d if not sg.endswith(':window-undercounted')]
+            viols += worse or [(f'{site}:{mode(b, s)}:table-is-not-that-of-a-prefix-of-the-reads',
+                                {'head': head, 'got_total': sum(got.values()), 'full_total': sum(exp.values())})]
+    bad_names = _name_clauses(df, o)
+    if bad_names:
+        viols.append((f'{site}:{mode(b, s)}:index-level-name-does-not-describe-its-level', bad_names))
+    return viols, exp, over, label
+
+
+# ---------------------------------------------------------------------------------------------- split
+
+def check_split(lens, b):
+    import numpy as np
+    import pysam
+    from gen import c10_rich as R
+    from mc.bind import seam
+    from singlecellmultiomics.bamProcessing import split_double_BAM as S
+    main = seam(S, 'main')
+    tmp = tempfile.mkdtemp(prefix='c10s_', dir='/dev/shm')
+    argv, stdout = sys.argv, sys.stdout
+    try:
+        bam, mat, outdir = os.path.join(tmp, 'in.bam'), os.path.join(tmp, 'prob.tsv'), os.path.join(tmp, 'out')
+        os.mkdir(outdir)
+        pairs = R.split_inputs(bam, mat, lens, b)
+        sys.argv = ['split_double_BAM.py', '-inbam', bam, '-inprobmat', mat, '-outdir', outdir, '-binsize', str(b), '-q']
+        np.random.seed(0)
+        try:
+            with contextlib.redirect_stdout(io.StringIO()):
+                main()
+        except (Exception, SystemExit) as ex:
+            return [(f'split_double_BAM:exception:{type(ex).__name__}', repr(ex))], len(pairs)
+        finally:
+            sys.argv, sys.stdout = argv, stdout
+        written = {}
+        for which in ('A', 'B'):
+            with pysam.AlignmentFile(os.path.join(outdir, f'splitted_{which}.bam')) as f:
+                for r in f:
+                    written.setdefault(r.query_name, set()).add(which)
+        viols = {}
+        for name, contig, p, cell, k0 in pairs:
+            own_bin_is_the_cells = (k0 * b <= p < (k0 + 1) * b)        # the bin [k*b,(k+1)*b) containing the coordinate
+            want = {'A'} if own_bin_is_the_cells else {'B'}
+            got = written.get(name, set())
+            if got == want:
+                continue
+            if not got:
+                clause = 'pair-of-a-listed-bin-not-written'
+            elif len(got) > 1:
+                clause = 'pair-written-to-both-signals'
+            else:
+                clause = 'pair-assigned-with-the-probability-of-a-bin-not-containing-it'
+            viols.setdefault(clause, {'pair': name, 'contig': contig, 'coordinate': p, 'bin_size': b,
+                                      'bin_with_probability_1': [k0 * b, (k0 + 1) * b], 'written_to': sorted(got),
+                                      'expected': sorted(want)})
+        return [(f'split_double_BAM:nosliding:{c}', d) for c, d in viols.items()], len(pairs)
+    finally:
+        sys.argv, sys.stdout = argv, stdout
+        shutil.rmtree(tmp, ignore_errors=True)
 
 
 # ---------------------------------------------------------------------------------------------- engine hooks
+
+def _second_file_lens(lens):
+    """the second alignment file: every contig 7 longer, and a contig the first file does not have"""
+    return tuple(L + 7 for L in lens) + (5,)
+
+
+def _table2(path, truth, lens, path2, truth2, lens2, layout, b, s, order):
+    first = (path, truth, lens) if order == 'short-first' else (path2, truth2, lens2)
+    second = (path2, truth2, lens2) if order == 'short-first' else (path, truth, lens)
+    viols = check_table(first[0], first[1], first[2], layout, b, s, False, None, more=[second])[0]
+    return [(sg.replace('create_count_table', 'create_count_table:two-files-different-contig-lengths', 1), d)
+            for sg, d in viols]
+
 
 def run_shard(shard, tier, acc):
     kind = shard[0]
     if kind == 'arith':
         _, copy, b, N = shard
         fns = _copy_module(copy)
-        for s in range(1, b + 1):
+        for s in range(1, 2 * b + 1):
             for p in range(0, N + 1):
                 viols, exp = check_arith(copy, p, b, s, fns)
                 case = {'level': 'arith', 'copy': copy, 'p': p, 'b': b, 's': s}
@@ -304,9 +613,22 @@ def run_shard(shard, tier, acc):
                          outcome=f'arith:{mode(b, s)}:windows={len(exp)}:boundary={boundary}')
                 for sig, d in viols:
                     acc.violation(sig, case, d)
+    elif kind == 'arith-large':
+        copy = shard[1]
+        fns = _copy_module(copy)
+        for b in LARGE_BINS:
+            for s in large_increments(b):
+                for p in large_points(b, s):
+                    viols, exp = check_arith(copy, p, b, s, fns)
+                    case = {'level': 'arith', 'copy': copy, 'p': p, 'b': b, 's': s}
+                    boundary = (p % s == 0) or ((p - b) % s == 0)
+                    acc.case(case, transitions=2, execs=2, nontrivial=boundary,
+                             outcome=f'arith-large:{mode(b, s)}:boundary={boundary}')
+                    for sig, d in viols:
+                        acc.violation(sig, case, d)
     elif kind == 'assign':
         _, L, b = shard
-        for s in range(1, b + 1):
+        for s in increments(b):
             for p in range(0, L + 3):
                 for keep in (False, True):
                     for tag in ASSIGN_TAGS:
@@ -320,43 +642,82 @@ def run_shard(shard, tier, acc):
                                      outcome=f'assign:{mode(b, s)}:keep={keep}:in={len(wins) - n_out}:out={n_out}')
                             for sig, d in viols:
                                 acc.violation(sig, case, d)
+    elif kind == 'assign-large':
+        L = 248956422
+        for b in (1000, 100000):
+            for s in sorted({b, b // 2, (3 * b) // 10}):
+                pts = set()
+                for base in (0, s, b, L - b, L - s, L, (L // b) * b, (L // s) * s, 2 ** 24):
+                    for d in (-1, 0, 1):
+                        if base + d >= 0:
+                            pts.add(base + d)
+                for p in sorted(pts):
+                    for keep in (False, True):
+                        viols, wins, exp = check_assign(L, p, b, s, keep, 'DS', 'single')
+                        case = {'level': 'assign', 'L': L, 'p': p, 'b': b, 's': s, 'keep': keep, 'binTag': 'DS',
+                                'kind': 'single'}
+                        n_out = sum(1 for w in wins if not inside(w, L))
+                        acc.case(case, transitions=1 + len(wins), nontrivial=True,
+                                 outcome=f'assign-large:{mode(b, s)}:keep={keep}:out={"some" if n_out else "none"}')
+                        for sig, d in viols:
+                            acc.violation(sig, case, d)
     elif kind == 'table':
-        _, lens, layout, b = shard
+        _, lens, layout, b, depth = shard
         tmp = tempfile.mkdtemp(prefix='c10_', dir='/dev/shm')
         try:
             path, truth = _build_bam(lens, layout, tmp)
-            for s in range(1, b + 1):
+            for s in increments(b):
                 for keep in (False, True):
-                    for tag in TABLE_TAGS:
-                        for dnd in ((False,) if layout == 'single' else (False, True)):
-                            for explicit in (False, True):
-                                viols, exp, over = check_table(path, truth, lens, layout, b, s, keep, tag, dnd, explicit)
-                                case = {'level': 'table', 'lens': list(lens), 'layout': layout, 'b': b, 's': s,
-                                        'keep': keep, 'binTag': tag, 'dnd': dnd, 'explicit': explicit}
-                                acc.case(case, transitions=len(truth), nontrivial=(over > 0 and len(exp) >= 2),
-                                         outcome=f'table:{mode(b, s)}:keep={keep}:{layout}{"+dnd" if dnd else ""}')
-                                acc.count('table_entries_compared', len(exp))
-                                for sig, d in viols:
-                                    acc.violation(sig, case, d)
-            # two alignment files in one call whose headers give chr1 different lengths, in both orders
-            lens2 = tuple(L + 7 for L in lens)
+                    for opt in option_vectors(depth, layout, b, s):
+                        viols, exp, over, label = check_table(path, truth, lens, layout, b, s, keep, opt, tmpdir=tmp)
+                        case = {'level': 'table', 'lens': list(lens), 'layout': layout, 'b': b, 's': s,
+                                'keep': keep, 'opt': opt}
+                        off = '+'.join(sorted(opt)) or 'default'
+                        if not exp:
+                            label += ':empty-table'
+                        acc.case(case, transitions=len(truth), nontrivial=(over > 0 and len(exp) >= 2),
+                                 outcome=f'table:{mode(b, s)}:keep={keep}:{layout}:{off}:{label}')
+                        acc.count('table_entries_compared', len(exp))
+                        for sig, d in viols:
+                            acc.violation(sig, case, d)
+            # two alignment files in one call whose headers disagree (lengths of the shared contigs, one contig only in
+            # the second file), in both orders
+            lens2 = _second_file_lens(lens)
             path2, truth2 = _build_bam(lens2, layout, tmp)
             for s in sorted({1, b, max(1, b // 2)}):
                 for order in ('short-first', 'long-first'):
-                    first = (path, truth, lens) if order == 'short-first' else (path2, truth2, lens2)
-                    second = (path2, truth2, lens2) if order == 'short-first' else (path, truth, lens)
-                    viols, exp, over = check_table(first[0], first[1], first[2], layout, b, s, False, 'DS', False, False,
-                                                   more=[second])
-                    viols = [(sg.replace('create_count_table', 'create_count_table:two-files-different-contig-lengths', 1), d)
-                             for sg, d in viols]
+                    viols = _table2(path, truth, lens, path2, truth2, lens2, layout, b, s, order)
                     case = {'level': 'table2', 'lens': list(lens), 'layout': layout, 'b': b, 's': s, 'order': order}
                     acc.case(case, transitions=len(truth) + len(truth2), nontrivial=True, outcome=f'table2:{mode(b, s)}:{order}')
                     for sig, d in viols:
                         acc.violation(sig, case, d)
         finally:
             shutil.rmtree(tmp, ignore_errors=True)
+    elif kind == 'split':
+        _, lens, b = shard
+        viols, n = check_split(lens, b)
+        case = {'level': 'split', 'lens': list(lens), 'b': b}
+        acc.case(case, transitions=n, nontrivial=(max(lens) >= 2 * b),
+                 outcome=f'split:bins_on_longest_contig={min(3, (max(lens) + 2) // b + 1)}{"+" if (max(lens) + 2) // b + 1 > 3 else ""}')
+        acc.count('split_pairs_judged', n)
+        for sig, d in viols:
+            acc.violation(sig, case, d)
     else:
         raise ValueError(shard)
+
+
+def _case_opt(case):
+    if 'opt' in case:
+        return dict(case['opt'])
+    # replay files written before the option dimensions existed
+    opt = {}
+    if case.get('binTag', 'DS') != 'DS':
+        opt['tag'] = case['binTag']
+    if case.get('dnd'):
+        opt['dnd'] = True
+    if case.get('explicit'):
+        opt['feats'] = 'chrom,@'
+    return opt
 
 
 def replay(case):
@@ -365,26 +726,24 @@ def replay(case):
         return check_arith(case['copy'], case['p'], case['b'], case['s'])[0]
     if lv == 'assign':
         return check_assign(case['L'], case['p'], case['b'], case['s'], case['keep'], case['binTag'], case['kind'])[0]
+    if lv == 'split':
+        return check_split(tuple(case['lens']), case['b'])[0]
     if lv == 'table':
         tmp = tempfile.mkdtemp(prefix='c10_', dir='/dev/shm')
         try:
             path, truth = _build_bam(tuple(case['lens']), case['layout'], tmp)
             return check_table(path, truth, tuple(case['lens']), case['layout'], case['b'], case['s'], case['keep'],
-                               case['binTag'], case['dnd'], case['explicit'])[0]
+                               _case_opt(case), tmpdir=tmp)[0]
         finally:
             shutil.rmtree(tmp, ignore_errors=True)
     if lv == 'table2':
         tmp = tempfile.mkdtemp(prefix='c10_', dir='/dev/shm')
         try:
             lens = tuple(case['lens'])
-            lens2 = tuple(L + 7 for L in lens)
+            lens2 = _second_file_lens(lens)
             path, truth = _build_bam(lens, case['layout'], tmp)
             path2, truth2 = _build_bam(lens2, case['layout'], tmp)
-            first = (path, truth, lens) if case['order'] == 'short-first' else (path2, truth2, lens2)
-            second = (path2, truth2, lens2) if case['order'] == 'short-first' else (path, truth, lens)
-            viols = check_table(first[0], first[1], first[2], case['layout'], case['b'], case['s'], False, 'DS', False, False,
-                                more=[second])[0]
-            return [(sg.replace('create_count_table', 'create_count_table:two-files-different-contig-lengths', 1), d) for sg, d in viols]
+            return _table2(path, truth, lens, path2, truth2, lens2, case['layout'], case['b'], case['s'], case['order'])
         finally:
             shutil.rmtree(tmp, ignore_errors=True)
     raise ValueError(lv)
